@@ -164,6 +164,9 @@ func (e *Encoder) writeObject(data interface{}) (int, error) {
 		return 0, err
 	}
 	for i := 0; i < vv.NumField(); i++ {
+		if !vv.Field(i).CanInterface() {
+			return 0, newCodecError("writeObject", "unexported field %s.%s can't be encoded", typ.Name(), typ.Field(i).Name)
+		}
 		_, err := e.WriteData(vv.Field(i).Interface())
 		if err != nil {
 			return 0, err
